@@ -121,13 +121,30 @@ def _run(prop, tier, seed, n_hist, budget, batch, workers, evidence_path, t0, ev
         for ch in range(nchunks):
             sweep_jobs.append({"prop": prop, "tier": tier, "run_seed": sseed, "target_cls": c, "mode": mode, "cap": cap,
                                "chunk": ch, "nchunks": nchunks, "minimise_s": 45 if tier == "quick" else 120})
+    # C10: sibling sweeps - a document and each of its head-level siblings, both orders, fresh readers
+    sibling_jobs = []
+    if prop == "C10":
+        from .ops import corpus
+        sib_master = random.Random(seed ^ 0x51B51B)
+        C = corpus()
+        cnames = {f: sorted(k for k, v in C.items() if v["fmt"] == f and 300 < len(v["text"]) < 4000) for f in ("dfxp", "sami")}
+        n_gen, n_corpus = (3, 2) if tier == "quick" else (40, 20)
+        for f in ("dfxp", "sami"):
+            for _ in range(n_gen):
+                sibling_jobs.append({"prop": prop, "tier": tier, "run_seed": sib_master.randrange(1 << 48), "fmt": f, "limit": 40})
+            for name in sib_master.sample(cnames[f], min(n_corpus, len(cnames[f]))):
+                sibling_jobs.append({"prop": prop, "tier": tier, "run_seed": sib_master.randrange(1 << 48), "fmt": f, "limit": 40,
+                                     "doc": C[name]["text"]})
     if os.environ.get("VERIF_NO_SWEEPS"):
         sweep_jobs = []
+        sibling_jobs = []
     # every job stops taking new work at the soft deadline (a slow or busy machine explores less, it does not run longer)
     hard = t0 + budget * (2.5 if tier == "quick" else 1.15)
     for j in jobs:
         j["deadline"] = hard
     for j in sweep_jobs:
+        j["deadline"] = hard
+    for j in sibling_jobs:
         j["deadline"] = hard
     stats = Stats()
     sweeps = []
@@ -137,7 +154,8 @@ def _run(prop, tier, seed, n_hist, budget, batch, workers, evidence_path, t0, ev
     ex = cf.ProcessPoolExecutor(max_workers=workers, mp_context=ctx)
     stopped_early = False
     try:
-        futs = [ex.submit(runner.run_sweep, j) for j in sweep_jobs] + [ex.submit(runner.run_batch, j) for j in jobs]
+        futs = [ex.submit(runner.run_sweep, j) for j in sweep_jobs] + [ex.submit(runner.run_siblings, j) for j in sibling_jobs] + \
+            [ex.submit(runner.run_batch, j) for j in jobs]
         pending = set(futs)
         while pending:
             done, pending = cf.wait(pending, timeout=1.0, return_when=cf.FIRST_COMPLETED)
@@ -192,7 +210,7 @@ def _run(prop, tier, seed, n_hist, budget, batch, workers, evidence_path, t0, ev
     finally:
         ex.shutdown(wait=False, cancel_futures=True)
         zp.close()
-    runs.sort(key=lambda r: (r["run_seed"], r.get("sweep_ordinal", 0)))
+    runs.sort(key=lambda r: (r["run_seed"], str(r.get("sweep_ordinal", 0))))
     sweeps.sort(key=lambda x: x["run_seed"])
     violations.sort(key=lambda v: (v["run_seed"]))
     wall = time.time() - t0
@@ -242,6 +260,7 @@ def _run(prop, tier, seed, n_hist, budget, batch, workers, evidence_path, t0, ev
             "exhaustive": False,
             "histories": len(runs), "steps": c.get("steps", 0),
             "random_histories": sum(1 for r in runs if "sweep_ordinal" not in r),
+            "sibling_document_pairs": sum(1 for r in runs if str(r.get("sweep_ordinal", "")).startswith("sib")),
             "crash_site_sweeps": {"sweeps": len({x["run_seed"] for x in sweeps}), "crash_points": sum(x["points"] for x in sweeps),
                                   "distinct_source_lines": sum(x["distinct_sites"] for x in sweeps if x.get("chunk", [0])[0] == 0),
                                   "per_target": [[x["target"].get("cls"), x["mode"], x.get("all_points", x["points"]), x["line_events"]]
